@@ -44,6 +44,7 @@ TIERS = {
         vals=[dict(MinR=0, MaxR=3, MinF=1, MaxF=1, V=2), dict(MinR=0, MaxR=2, MinF=2, MaxF=2, V=1),
               dict(MinR=3, MaxR=3, MinF=2, MaxF=2, V=1, sample=900)],
         gen=dict(GenRows=[17, 40, 64], GenCols=[3, 5], NSeeds=2, V=2),
+        wide=dict(GenRows=[2], GenCols=[130, 400], NSeeds=1, V=2),
         picks=2, picks_ext=1, picks_big=8, bad_stride=1,
         machine=[("compute: layouts x {none, ok_strided}", dict(DTypes=["int32"], Layouts=LAYOUTS, OutKinds=["none", "ok_strided"],
                                                                 MinR=0, MaxR=2, MinF=1, MaxF=2, V=1)),
@@ -61,6 +62,7 @@ TIERS = {
               dict(MinR=3, MaxR=3, MinF=2, MaxF=2, V=1), dict(MinR=2, MaxR=2, MinF=2, MaxF=2, V=2, sample=6000),
               dict(MinR=1, MaxR=1, MinF=3, MaxF=3, V=2)],
         gen=dict(GenRows=[17, 40, 64, 129, 257], GenCols=[3, 5, 8], NSeeds=3, V=2),
+        wide=dict(GenRows=[2, 3], GenCols=[130, 400, 33000, 66000], NSeeds=1, V=2),
         picks=8, picks_ext=3, picks_big=40, bad_stride=1,
         machine=[("compute: layouts x out kinds", dict(DTypes=["int32", "bool"], Layouts=LAYOUTS, OutKinds=GOOD_OUTS,
                                                        MinR=0, MaxR=2, MinF=1, MaxF=2, V=1)),
@@ -234,6 +236,7 @@ def run(ctx):
     for n, sc in enumerate(tier["vals"]):
         emitters.append(("vals%d" % n, dict(Kernels=["euclidean"], Emit="vals", **sc), "EmitVals", sc))
     emitters.append(("gen", dict(Kernels=["euclidean"], Emit="vals", DataMode="gen", **tier["gen"]), "EmitVals", dict(big=True)))
+    emitters.append(("genwide", dict(Kernels=["euclidean"], Emit="vals", DataMode="genpos", **tier["wide"]), "EmitVals", dict(big=True)))
     vmax = max([sc["V"] for sc in tier["vals"]] + [tier["gen"]["V"]])
     emitters.append(("cfg_good", dict(Vias=ALL_VIAS, DTypes=ALL_DTYPES, YDts=["same", "other"], Layouts=LAYOUTS, OutKinds=GOOD_OUTS,
                                       UBits=ALL_UBITS, DataMode="zero", V=vmax, Emit="cfg"), "EmitCfg", {}))
@@ -242,7 +245,8 @@ def run(ctx):
     rows = sorted({r for sc in tier["vals"] for r in range(sc["MinR"], sc["MaxR"] + 1)})
     cols = sorted({f for sc in tier["vals"] for f in range(sc["MinF"], sc["MaxF"] + 1)})
     emitters.append(("lay", dict(Kernels=["euclidean"], Layouts=LAYOUTS, OutKinds=GOOD_OUTS, DataMode="zero", MinR=rows[0], MaxR=rows[-1],
-                                 MinF=cols[0], MaxF=cols[-1], GenRows=tier["gen"]["GenRows"], GenCols=tier["gen"]["GenCols"], Emit="lay"),
+                                 MinF=cols[0], MaxF=cols[-1], GenRows=sorted(set(tier["gen"]["GenRows"] + tier["wide"]["GenRows"])),
+                                 GenCols=sorted(set(tier["gen"]["GenCols"] + tier["wide"]["GenCols"])), Emit="lay"),
                      "EmitLay", {}))
     for name, kw, inv, _ in emitters:
         core.write_cfg(os.path.join(d, name + ".cfg"), next_="Stutter", constants=dist_consts(**kw), invariants=[inv])
@@ -269,7 +273,7 @@ def run(ctx):
                     pcov[nm] = pcov.get(nm, 0) + cnt
         elif kind == "emit":
             sc = next(e[3] for e in emitters if e[0] == a)
-            if a.startswith("vals") or a == "gen":
+            if a.startswith("vals") or a in ("gen", "genwide"):
                 got = [p for t, p in r.prints if t == "CASE"]
                 if not got:
                     raise core.MachineryError("no CASE lines from emitter %s" % a)
